@@ -825,6 +825,10 @@ func checkC18(c any, r *Rec) error {
 		boundary = !cs.HasParam || int(p.Int()) <= 0 || whole
 	case "pluralize":
 		n := in.Int()
+		one := n == 1
+		if in.IsFloatKind() {
+			one = in.Float() == 1 // "a plural suffix if the value is not 1": 1.5 is not 1
+		}
 		arg := ""
 		if cs.HasParam {
 			arg = p.Str()
@@ -848,13 +852,13 @@ func checkC18(c any, r *Rec) error {
 			}
 		}
 		want := plur
-		if n == 1 {
+		if one {
 			want = sing
 		}
 		if out != want {
 			return fail("want %q", want)
 		}
-		boundary = n == 0 || n == 1 || n < 0
+		boundary = n == 0 || n == 1 || n < 0 || in.IsFloatKind()
 	case "yesno":
 		arg := ""
 		if cs.HasParam {
@@ -1178,6 +1182,9 @@ func genC18(t *rapid.T) *c18Case {
 		}
 	case "pluralize":
 		cs.In = vInt(drawInt(t, -2, 5, "n"))
+		if drawInt(t, 0, 3, "fl") == 0 {
+			cs.In = vF64(pick(t, "pf", []float64{1, 1.5, 0.5, 2, 0, -1, 1.0000001, 0.999}))
+		}
 		if drawBool(t, "noparam") {
 			cs.HasParam = false
 		} else {
@@ -1342,7 +1349,18 @@ type c18WR struct {
 func checkC18WR(c any, r *Rec) error {
 	cs := c.(*c18WR)
 	if cs.Max == 0 {
-		return skipf("max 0")
+		// nothing can be a part of nothing: Django answers 0
+		src := "{% widthratio v m w %}"
+		tpl, err := c18Set.FromString(src)
+		if err != nil {
+			return err
+		}
+		out, err := tpl.Execute(pongo2.Context{"v": cs.V, "m": 0, "w": cs.W})
+		if err != nil || out != "0" {
+			return fmt.Errorf("widthratio %d 0 %d rendered %q (err %v), the reference gives 0 for a maximum of 0", cs.V, cs.W, out, err)
+		}
+		r.NonTrivial(fmt.Sprint(*cs))
+		return nil
 	}
 	num := int64(cs.V) * int64(cs.W)
 	den := int64(cs.Max)
@@ -1377,9 +1395,9 @@ func checkC18WR(c any, r *Rec) error {
 
 var _ = register(&propSpec{
 	ID:   "C18.widthratio",
-	Rule: "widthratio v max w (also with 'as') for integers, compared with round-to-nearest of v/max*w on non-tie inputs. Non-trivial: inexact ratio or v > max.",
+	Rule: "widthratio v max w (also with 'as') for integers, compared with round-to-nearest of v/max*w on non-tie inputs; a maximum of 0 gives 0 (Django). Non-trivial: inexact ratio or v > max or max = 0.",
 	Gen: func(t *rapid.T) any {
-		return &c18WR{V: drawInt(t, 0, 400, "v"), Max: drawInt(t, 1, 400, "max"), W: pick(t, "w", []int{100, 50, 1, 7, 200, 1000}), As: drawBool(t, "as")}
+		return &c18WR{V: drawInt(t, 0, 400, "v"), Max: drawInt(t, 0, 400, "max"), W: pick(t, "w", []int{100, 50, 1, 7, 200, 1000}), As: drawBool(t, "as")}
 	},
 	New:   func() any { return &c18WR{} },
 	Check: checkC18WR,
